@@ -189,7 +189,7 @@ spec fn nth_post(pre: VmGreenThread, post: VmGreenThread, cont: bool, dest: u16,
 }
 
 // ---- ConcatStrings: resumable, one byte per step ----
-uninterp spec fn val_strptr(p: *mut StringObject) -> Value;   // From<*mut StringObject> for Value
+spec fn val_strptr(p: *mut StringObject) -> Value { val_sptr(p) }
 spec fn c_fresh(t: VmGreenThread) -> bool { t.string_op_index1 == 0 && t.string_op_index2 == 0 }
 // everything except value_stack, pc, string-op state and the allocation bookkeeping
 spec fn frame_concat(a: VmGreenThread, b: VmGreenThread) -> bool {
